@@ -85,12 +85,17 @@ FUNCTIONS['CSCH'] = FUNCTIONS['_XLFN.CSCH'] = wrap_ufunc(
 )
 
 
+def _decimal(x):
+    # Excel works on 15 significant decimal digits: 1.15 * 100 is 115.
+    return float('%.15g' % x)
+
+
 def xceiling(num, sig, ceil=math.ceil, dfl=0):
     if sig == 0:
         return dfl
     elif sig < 0 < num:
         return np.nan
-    return ceil(num / sig) * sig
+    return ceil(_decimal(num / sig)) * sig
 
 
 FUNCTIONS['CEILING'] = wrap_ufunc(xceiling)
@@ -199,9 +204,13 @@ def xlcm(*args):
 
 FUNCTIONS['LCM'] = wrap_func(xlcm)
 FUNCTIONS['LOG10'] = wrap_ufunc(np.log10)
-FUNCTIONS['LOG'] = wrap_ufunc(
-    lambda x, base=10: np.log(x) / np.log(base) if base else np.nan
-)
+def xlog(x, base=10):
+    if base == 1 and x > 0:
+        return Error.errors['#DIV/0!']
+    return np.log(x) / np.log(base) if base else np.nan
+
+
+FUNCTIONS['LOG'] = wrap_ufunc(xlog)
 FUNCTIONS['LN'] = wrap_ufunc(np.log)
 
 
@@ -234,7 +243,9 @@ FUNCTIONS['MMULT'] = wrap_func(xmmult)
 
 
 def xmod(x, y):
-    return y == 0 and Error.errors['#DIV/0!'] or np.mod(x, y)
+    if y == 0:
+        return Error.errors['#DIV/0!']
+    return x - y * math.floor(_decimal(x / y))
 
 
 FUNCTIONS['MOD'] = wrap_ufunc(xmod)
@@ -362,7 +373,7 @@ def round_up(x):
 
 def xround(x, d, func=round_up):
     d = 10 ** int(d)
-    v = func(abs(x * d)) / d
+    v = func(_decimal(abs(x * d))) / d
     return -v if x < 0 else v
 
 
@@ -419,7 +430,9 @@ def xsum(*args, func=np.sum):
     return func(inp[~np.isnan(inp)])
 
 
-FUNCTIONS['PRODUCT'] = wrap_func(functools.partial(xsum, func=np.prod))
+FUNCTIONS['PRODUCT'] = wrap_func(functools.partial(
+    xsum, func=lambda v: np.prod(v) if v.size else 0.0
+))
 FUNCTIONS['SUM'] = wrap_func(xsum)
 FUNCTIONS['SUMIF'] = wrap_func(functools.partial(xfilter, xsum))
 FUNCTIONS['SUMSQ'] = wrap_func(functools.partial(
